@@ -104,6 +104,7 @@ func unhx(s string) string {
 func main() {
 	out = bufio.NewWriterSize(os.Stdout, 1<<20)
 	defer out.Flush()
+	defer cleanupScratch()
 	if len(os.Args) >= 2 && os.Args[1] == "eval" {
 		sc := bufio.NewScanner(os.Stdin)
 		sc.Buffer(make([]byte, 1<<20), 1<<28)
